@@ -120,6 +120,22 @@ def _failing(thunk):
     return ("no-error",)
 
 
+def _with_empty(x):
+    """the tag is used as a context manager with an empty body (nothing displayed): nothing about it changes"""
+    from htmltools import Tag
+    if not isinstance(x, Tag):
+        return "not-a-tag"
+    saved = sys.displayhook
+    got = []
+    sys.displayhook = got.append
+    try:
+        with x:
+            pass
+    finally:
+        sys.displayhook = saved
+    return ("handed", len(got), got[0] is x if got else None)
+
+
 def _globals():
     import htmltools
     return (sys.displayhook, htmltools.html_dependency_render_mode)
@@ -145,6 +161,7 @@ def _ops():
         "eq": lambda x: (x == x, x == copy.copy(x)),
         "doc.append": lambda x: _doc_append(x),
         "save_html": _save,
+        "with-empty-block": _with_empty,
         "render-beside-failing-object": lambda x: _failing(lambda: Tag("div", x, Boom()).render()),
         "doc.render-beside-failing-object": lambda x: _failing(lambda: HTMLDocument(x, Tag("p", Boom())).render()),
         "save_html-beside-failing-object": lambda x: _failing(lambda: _save(TagList(x, Boom()))),
@@ -184,7 +201,7 @@ SUBS = [
     ["TLX", [["ES", "b", False, [], [T("x")]], X2]],
     ["ECX", "body", True, [], [["ES", "div", True, [], [D2]]]],
 ]
-OPS_QUICK = ["tagify", "render", "str", "get_html_string", "get_dependencies", "copy",
+OPS_QUICK = ["tagify", "render", "str", "get_html_string", "get_dependencies", "copy", "with-empty-block",
              "doc.render", "doc(lang).render", "doc(class).render(noprefix)", "eq", "doc.append"]
 
 _BASE = {}
